@@ -59,6 +59,7 @@ pub fn install(pre : &PreD)
     f.cmd.exec_out = pre.exec_out;
     f.cmd.omit = [false, false];
     f.cmd.fail_code = false;
+    f.cmd.first_line_fails = false;
     f.cmd.spawn_error = false;
     f.cmd.fresh_mtime = [pre.fresh, pre.fresh2];
     f.snapshot_initial();
@@ -124,11 +125,12 @@ pub fn history_of(pre : &PreD) -> RuleHistory
         other.push(ticket_of_content(0));
         i += 1;
     }
+    /*  Always two entries, so that the map's length is concrete on every path (a container of
+        symbolic length costs CBMC far more than a symbolic key): the second entry is filed under
+        the current sources hash iff has_history, else under a second unrelated hash. */
     let mut entries = Vec::with_capacity(2);
     entries.push((ticket_foreign(2), FileStateVec::from_ticket_vec(other)));
-    if pre.has_history
-    {
-        entries.push((sources_ticket(), remembered_vec(pre)));
-    }
+    let key = if pre.has_history { sources_ticket() } else { ticket_foreign(3) };
+    entries.push((key, remembered_vec(pre)));
     crate::history::verif::history_from_entries(entries)
 }
